@@ -62,3 +62,14 @@ claim(
     'decide numerical equality with the bare model.',
     'DESIGN.md 4 C08',
 )
+claim(
+    'C13',
+    'who-may-exec provenance, format-string taint, exception-escape summaries with handler modelling, __init__-chain event layout, end-of-input guard coverage',
+    'Decides: exec/eval occur in fsic/parser.py only in build_model on the text returned by build_model_definition; user text reaches '
+    'str.format only brace-escaped; the set of exception classes that can escape parse_model over its call graph (explicit raises, '
+    'asserts, raiser table) is within ParserError/SymbolError/IndentationError, each other site discharged by a named static fact; '
+    'names reserved by the BaseModel __init__ chain vs names the parser knows (K5: seven entries); a statement without a left-hand '
+    'variable and a statement that is not one single-target Assign are rejected; no while loop/recursion; every conjunct of the '
+    'completion predicate has an end-of-input rejection. Does not decide regex backtracking or instantiation success beyond reserved names.',
+    'DESIGN.md 4 C13',
+)
